@@ -410,12 +410,14 @@ theorem mergeOne_rawF {cfg : GenCfg} {e : EqEnv} {first : Bool} {fields fields' 
       split at h
       · cases h
       · split at h
-        · cases h
+        · simp only [pure, Except.pure, Except.ok.injEq] at h; subst h; exact hf
         · split at h
-          · simp only [pure, Except.pure, Except.ok.injEq] at h; subst h; exact hf
-          · simp only [pure, Except.pure, Except.ok.injEq] at h; subst h
-            apply hf.set
-            exact merged_rawD hd hin
+          · cases h
+          · split at h
+            · simp only [pure, Except.pure, Except.ok.injEq] at h; subst h; exact hf
+            · simp only [pure, Except.pure, Except.ok.injEq] at h; subst h
+              apply hf.set
+              exact merged_rawD hd hin
     · rename_i hnopt
       have hor : rawD cfg orig = true := by
         cases orig <;> simp_all [rawF]
@@ -423,12 +425,16 @@ theorem mergeOne_rawF {cfg : GenCfg} {e : EqEnv} {first : Bool} {fields fields' 
       split at h
       · cases h
       · split at h
-        · cases h
+        · simp only [pure, Except.pure, Except.ok.injEq] at h; subst h; exact hf
         · split at h
-          · simp only [pure, Except.pure, Except.ok.injEq] at h; subst h; exact hf
-          · simp only [pure, Except.pure, Except.ok.injEq] at h; subst h
-            apply hf.set
-            exact rawD_rawF (merged_rawD hd hor)
+          · cases h
+          · split at h
+            · simp only [pure, Except.pure, Except.ok.injEq] at h; subst h
+              apply hf.set
+              exact rawD_rawF hd
+            · simp only [pure, Except.pure, Except.ok.injEq] at h; subst h
+              apply hf.set
+              exact rawD_rawF (merged_rawD hd hor)
 
 theorem foldlM_mergeOne_rawF {cfg : GenCfg} {e : EqEnv} {first : Bool} (model : Fields)
     (hmodel : ∀ kv ∈ model, rawD cfg kv.2 = true) :
